@@ -1414,6 +1414,167 @@ def c15(tier, seed):
 
 
 # ---------------------------------------------------------------------------------------------
+# C14: invoke life cycle (Invoke.tla / TraceC14.tla)
+# ---------------------------------------------------------------------------------------------
+def c14_docs(dm):
+    from xml.sax.saxutils import escape
+    hdr = '<scxml xmlns="http://www.w3.org/2005/07/scxml" version="1.0" datamodel="%s" name="%s">'
+    c1 = (hdr % (dm, "C1")) + '<datamodel><data id="a" expr="0"/></datamodel><state id="c">' \
+        '<onentry><script>mark(\'cstart\', _name, a)</script><send target="#_parent" event="hello"/></onentry>' \
+        '<transition event="ping"><send target="#_parent" event="pong"/></transition>' \
+        '<transition event="fin" target="f"><send target="#_parent" event="bye"/></transition>' \
+        '</state><final id="f"/></scxml>'
+    plain = lambda nm: (hdr % (dm, nm)) + '<datamodel><data id="a" expr="5"/></datamodel><state id="c"><onentry><script>mark(\'cstart\', _name, a)</script>' \
+                                            '</onentry><transition event="stop" target="f"/></state><final id="f"/></scxml>'
+    recv = "<script>mark('recv', _event.name, _event.invokeid)</script>"
+    pdoc = (hdr % (dm, "P")) + '<datamodel><data id="x" expr="0"/></datamodel>' \
+        '<state id="s0"><transition event="go" target="sA"/><transition event="tr" target="sT"/><transition event="*">' + recv + '</transition></state>' \
+        '<state id="sT"><invoke type="scxml" id="kidT"><content>' + plain("CT") + '</content></invoke>' \
+        '<transition target="sB"/></state>' \
+        '<state id="sA">' \
+        '<invoke type="scxml" id="kid"><param name="a" expr="1"/><param name="b" expr="2"/><content>' + c1 + '</content>' \
+        '<finalize><script>mark(\'fin\', _event.name)</script></finalize></invoke>' \
+        '<invoke type="scxml" id="kidf" autoforward="true"><content>' + plain("C2") + '</content></invoke>' \
+        '<transition event="leave" target="s0"/>' \
+        '<transition event="ping"><send target="#_kid" event="ping"/></transition>' \
+        '<transition event="finish"><send target="#_kid" event="fin"/></transition>' \
+        '<transition event="*">' + recv + '</transition></state>' \
+        '<state id="sB"><invoke type="scxml" id="kidB"><content>' + plain("C3") + '</content></invoke>' \
+        '<transition event="back" target="s0"/><transition event="*">' + recv + '</transition></state></scxml>'
+    inv = [{"state": "sT", "child": "CT", "id": "kidT", "fwd": False, "fin": False},
+           {"state": "sA", "child": "C1", "id": "kid", "fwd": False, "fin": True, "direct": ["ping", "fin"]},
+           {"state": "sA", "child": "C2", "id": "kidf", "fwd": True, "fin": False},
+           {"state": "sB", "child": "C3", "id": "kidB", "fwd": False, "fin": False}]
+    for x in inv:
+        x.setdefault("direct", [])
+    return pdoc, inv
+
+
+@check("C14")
+def c14(tier, seed):
+    t0 = time.time()
+    wd = vlib.workdir("C14")
+    V = vlib.Verdicts("C14")
+    vlib.build_harness()
+    mc = vlib.run_tlc("Invoke", "Invoke.cfg", wd, timeout=600)
+    mc["text"] = ""
+    rng = random.Random(seed)
+    S = {"settle": 40}
+    scripts = {
+        "full-cycle": ["go", S, "ext1", "ping", S, "finish", S, "ext2", "leave", S],
+        "transient": ["tr", S, "ext1", "back", S],
+        "reenter": ["go", S, "leave", S, "go", S, "finish", S, "leave", S],
+        "rapid-enter-leave": ["go", "leave", "go", "leave", S],
+        "rapid-finish-leave": ["go", S, "finish", "leave", S],
+        "finish-then-events": ["go", S, "finish", S, "ext1", "ext2", "leave", S],
+        "cancel-with-traffic": ["go", S, "ping", "ping", "ping", "leave", "ext1", S],
+        "forwarded-stop": ["go", S, "ext1", "stop", S, "ext2", "leave", S],
+        "forwarded-stop-rapid": ["go", "ext1", "stop", "ext2", "leave", "go", S, "leave", S],
+    }
+    jobs = []
+    meta = {}
+    dms = ["rfsm-expression"] if tier == "quick" else ["rfsm-expression", "ecmascript"]
+    reps = int(os.environ.get("C14_REPS", "0")) or (4 if tier == "quick" else 30)
+    for dm in dms:
+        pdoc, inv = c14_docs(dm)
+        for name, script in scripts.items():
+            for rep in range(reps):
+                steps = [{"start": "P"}, {"settle": 30}]
+                for x in script:
+                    steps.append(x if isinstance(x, dict) else {"send": "P", "event": x})
+                    if rep % 2 == 1 and not isinstance(x, dict) and rng.random() < 0.3:
+                        steps.append({"sleep_us": rng.randint(50, 3000)})
+                jid = len(jobs) + 1
+                job = {"id": jid, "sessions": [{"name": "P", "xml": pdoc}], "steps": steps, "timeout_ms": 30000}
+                if dm == "ecmascript":
+                    job["options"] = {"ecma:strict": ""}
+                jobs.append(job)
+                meta[jid] = (name, dm, inv)
+    res = run_scen_jobs(jobs, wd, threads=4)
+    scens = []
+    for j in jobs:
+        r = res[j["id"]]
+        name, dm, inv = meta[j["id"]]
+        if r.get("errors"):
+            raise ToolError("C14 scenario %s: %s" % (name, r["errors"]))
+        pidx = [n for n in r["names"] if n[0] == "P"][0][1]
+        logs = {sl["idx"]: [x[:-1] for x in sl["recs"]] for sl in r["sessions"]}
+
+        def child_info(idx):
+            recs = logs.get(idx, [])
+            nm, a, hasb = "?%d" % idx, "", False
+            recv = []
+            cancelled = False
+            ended = False
+            for x in recs:
+                if x[0] == "M" and x[1] == "cstart":
+                    nm, a = tracelib.val_str(x[2][0]), tracelib.val_str(x[2][1])
+                elif x[0] == "XR":
+                    if x[1]["name"] == "error.platform.cancel":
+                        cancelled = True
+                    else:
+                        recv.append(x[1]["name"])
+                elif x[0] == "END":
+                    ended = True
+            return {"name": nm, "recv": recv, "final": ended and not cancelled, "cancelled": cancelled, "a": a,
+                    "wanta": "1" if nm == "C1" else a, "hasb": hasb}
+        prec = []
+        kids = []
+        for x in logs[pidx]:
+            k = x[0]
+            if k == "E" and not x[1].startswith("__id"):
+                prec.append({"k": "enter", "a": x[1], "b": ""})
+            elif k == "X":
+                prec.append({"k": "exit", "a": x[1], "b": ""})
+            elif k == "IDLE":
+                prec.append({"k": "idle", "a": "", "b": ""})
+            elif k == "CH":
+                ci = child_info(x[1])
+                kids.append(ci)
+                prec.append({"k": "start", "a": ci["name"], "b": ""})
+            elif k == "CI":
+                prec.append({"k": "cancel", "a": "", "b": ""})
+            elif k == "XR" and x[1]["name"] != "error.platform.cancel":
+                prec.append({"k": "xr", "a": x[1]["name"], "b": x[1]["invokeid"] or ""})
+            elif k == "M" and x[1] == "fin":
+                prec.append({"k": "fin", "a": tracelib.val_str(x[2][0]) if x[2] else "", "b": ""})
+            elif k == "SV":
+                prec.append({"k": "sel", "a": "", "b": ""})
+        scens.append({"inv": inv, "p": prec, "kids": kids, "jid": j["id"],
+                      "panic": bool(r.get("panics") or r.get("other_panics")), "stall": bool(r.get("stalls"))})
+    with open(os.path.join(wd, "traces.ndjson"), "w") as f:
+        for sc in scens:
+            f.write(json.dumps({k2: sc[k2] for k2 in ("inv", "p", "kids")}) + "\n")
+    tv = vlib.run_tlc("TraceC14", "TraceC14.cfg", wd, env={"TRACES": "traces.ndjson"}, timeout=1500)
+    acc = len(vlib.tlc_tuples(tv["text"], "ACCEPT"))
+    for t in vlib.tlc_tuples(tv["text"], "REJECT"):
+        v = vlib.parse_tla_value(t)
+        sc = scens[v[1] - 1]
+        name, dm, inv = meta[sc["jid"]]
+        V.report("%s:%s" % (v[2], name), "%s in scenario %s (%s)" % (v[2], name, dm),
+                 {"class": v[2], "scenario": name, "parent_records": [[x["k"], x["a"], x["b"]] for x in sc["p"]], "children": sc["kids"]})
+    tv["text"] = ""
+    for sc in scens:
+        if sc["panic"] or sc["stall"]:
+            V.report("session-%s:%s" % ("panic" if sc["panic"] else "stall", meta[sc["jid"]][0]), "scenario %s" % meta[sc["jid"]][0],
+                     {"result": {k2: res[sc["jid"]].get(k2) for k2 in ("panics", "other_panics", "stalls")}})
+    if acc == 0 and not V.violations:
+        raise ToolError("C14: nothing accepted")
+    rc = V.finish()
+    cov = {"states": mc["distinct"] + tv["distinct"], "transitions": mc["states"] + tv["states"], "traces_validated_against_impl": acc,
+           "samples": [{"scenario": meta[scens[0]["jid"]][0], "parent_records": [[x["k"], x["a"], x["b"]] for x in scens[0]["p"][:25]]}],
+           "evaluations": len(scens), "distinct_nontrivial": sum(len(sc["kids"]) for sc in scens),
+           "rule": "Invoke.tla model-checked (all orders of child events, completion and cancellation; InvokeOncePerStableEntry, "
+                   "NothingAfterCancel, DoneInvokeOnceAndLast); %d recorded parent/child scenarios (9 scripts incl. transient state, "
+                   "re-entry, rapid enter/leave, finish racing leave, cancellation under traffic) validated by TraceC14.tla; "
+                   "non-trivial = child sessions started" % len(scens)}
+    vlib.write_evidence("C14", tier, seed, "model_checking", cov, time.time() - t0, len(V.violations),
+                        ["child creation is observed as the creation of the child's Fsm on the parent's thread (tracer factory)",
+                         "schedules are steered by settle pauses and jitter, not enumerated"])
+    return rc
+
+
+# ---------------------------------------------------------------------------------------------
 # C10 / C11: Expr.tla as generator + oracle, the engine evaluated in `vh expr`
 # ---------------------------------------------------------------------------------------------
 OPERANDS = ["0", "1", "2", "3", "7", "10", "-1", "-4", "2.5", "0.5", "1.0", "-1.5", "'a'", "'b'", "'ab'", "''", "true",
